@@ -384,6 +384,11 @@ def stepLine (s : DState) (w : List String) : DState × String :=
     | ["null"] => ({ s with decs := upsert s.decs d { slot with last := [] } }, showPackets [])
     | ["reprint"] => (s, showPackets slot.last)
     | ["destroy"] => ({ s with decs := upsert s.decs d { slot with st := DecState.empty, eps := [] } }, "ok")
+    | ["copyfrom", other] =>
+      if has s.decs other then
+        let o := lookup s.decs other
+        ({ s with decs := upsert s.decs d { slot with st := o.st, eps := o.eps, tbl := o.tbl } }, "ok")
+      else (s, "bad-op")
     | ["feedlast", e] =>
       let frames := (lookup s.encs e).frames
       let r := frames.foldl (fun (acc : DecSlot × List Packet) b =>
